@@ -584,41 +584,36 @@ structure FontOut where
   err : Option Exc := Option.none
   deriving Repr, BEq, DecidableEq, Inhabited
 
-/-- The `for font_type, url in rule_descriptors['src']` loop.  `clobbered`: the local variable
-`string` (the `FcChar8 **` out-parameter) has been overwritten by `string = 'string' in result`. -/
-def fontLoop (fetcher : Fetcher) : Bool → List FontSrc → FontOut → FontOut
-  | _, [], acc => { acc with warned := true }
-  | clobbered, src :: rest, acc =>
-    let url? : Except Exc (Option String) := match src with
-      | .external u => .ok u
-      | .internal => .ok Option.none
-      | .«local» _ found nameMatches uri =>
-        if !found then .ok Option.none
-        -- `FcPatternGetString(matching_pattern, tag, 0, string)` with `string` a bool
-        else if clobbered then .error ⟨"TypeError", "string"⟩
-        else if nameMatches then .ok (some uri) else .ok Option.none
-    match url? with
-    | .error e => { acc with err := some e }
-    | .ok Option.none => fontLoop fetcher clobbered rest acc
-    | .ok (some url) =>
+/-- The URL a `src` entry asks the fetcher for, if any: `url(...)` as resolved; `local(...)` the file
+URI of the matched system font (no matching pattern / names don't match: `continue`). -/
+def FontSrc.target : FontSrc → Option String
+  | .external u => u
+  | .internal => Option.none
+  | .«local» _ found nameMatches uri => if found && nameMatches then some uri else Option.none
+
+/-- The `for font_type, url in rule_descriptors['src']` loop. -/
+def fontLoop (fetcher : Fetcher) : List FontSrc → FontOut → FontOut
+  | [], acc => { acc with warned := true }
+  | src :: rest, acc =>
+    match src.target with
+    | Option.none => fontLoop fetcher rest acc
+    | some url =>
       let (evs, got) := fetch (fetcher url) url readAll
       let acc := { acc with log := acc.log ++ evs }
-      -- `string = 'string' in result` is executed as soon as the `with` body runs
-      let clobbered := clobbered || evs.contains .body
       match got with
-      | .error _ => fontLoop fetcher clobbered rest acc      -- `except Exception: continue`
+      | .error _ => fontLoop fetcher rest acc      -- `except Exception: continue`
       | .ok content =>
-        if content.woff && !content.woffOk then fontLoop fetcher clobbered rest acc
+        if content.woff && !content.woffOk then fontLoop fetcher rest acc
         else
           let acc := { acc with written := acc.written ++ [content.id] }
           if content.fontOk then { acc with installed := some content.id }
-          else fontLoop fetcher clobbered rest acc
+          else fontLoop fetcher rest acc
 
 /-- `add_font_face(rule_descriptors, url_fetcher)`. -/
 def addFontFace (fetcher : Fetcher) (st : FontState) (face : FontFace) : FontState × FontOut :=
   if st.loaded.contains face.key then (st, {})
   else
-    let out := fontLoop fetcher false face.srcs {}
+    let out := fontLoop fetcher face.srcs {}
     (if out.written.isEmpty then st else { loaded := face.key :: st.loaded }, out)
 
 def runFonts (fetcher : Fetcher) : FontState → List FontFace → List FontOut
